@@ -75,6 +75,10 @@ def make_event(rng, version, shape):
                       authorised="@auth:" + rng.choice(["other.example", "a.example"]))
         else:
             kw.update(membership=m)
+            if m != "invite" and rng.random() < 0.3:
+                # a third_party_invite value on a non-invite member event (kept, stripped down or
+                # dropped by redaction depending on the room version): no signer exemption
+                kw.update(tpi=rng.choice([True, "nosigned", "nosigned"]))
             if rng.random() < 0.15:
                 # the authorising-user key on a non-join event: not a restricted join
                 kw.update(authorised="@auth:other.example")
